@@ -32,7 +32,7 @@ SHARD_SIZE = 8
 
 
 def budget(tier):
-    return 160 if tier == "quick" else 3000
+    return 160 if tier == "quick" else 1200
 
 
 def canonical_order_key(shape):
